@@ -106,7 +106,12 @@ func evalLoad(x *ctx, cs Case, mo *modelOut) ImplResult {
 	fail := func(key, detail string) {
 		x.failure(common.OracleFailure{Engine: "config", Key: key, Case: cs, Detail: detail})
 	}
-	if strings.HasPrefix(impl.Line, "panic") || strings.HasPrefix(implMig.Line, "panic") {
+	switch {
+	case impl.Line == "err PANIC:api-mux-conflict":
+		fail(keyF25, "Config.Manager panics at load instead of returning an error or accepting: "+impl.ErrMsg)
+	case impl.Line == "err PANIC:api-secret-path":
+		fail(keyF26, "Config.Manager panics at load instead of returning an error: "+impl.ErrMsg)
+	case strings.HasPrefix(impl.Line, "panic") || strings.HasPrefix(implMig.Line, "panic"):
 		fail("panic-at-load", impl.Line+" / "+implMig.Line)
 	}
 	if strings.HasPrefix(impl.Line, "harness-error") {
@@ -251,6 +256,9 @@ const (
 	keyF15  = "F15:unbounded-filter-size-accepted"
 	keyF20d = "F20:dup-domain-set-accepted"
 	keyF20p = "F20:dup-prefix-set-accepted"
+	keyF24  = "F24:domain-set-capacity-hint-panics-at-load"
+	keyF25  = "F25:api-pprof-with-static-path-panics-at-load"
+	keyF26  = "F26:api-secret-path-wildcard-panics-at-load"
 )
 
 func probes(x *ctx) error {
@@ -288,6 +296,24 @@ func probes(x *ctx) error {
 		before := x.rep.Distribution["ORACLE-FAIL:"+pr.key]
 		evalLoad(x, cs, m)
 		x.rep.FindingsProbed[pr.key] = x.rep.Distribution["ORACLE-FAIL:"+pr.key] > before
+	}
+	// F24: a domain set file with an absurd capacity hint (keyword / regexp counts near 2^63): the loader must
+	// answer with an error or accept the (otherwise valid) file, not panic. Nothing is allocated: makeslice refuses first.
+	{
+		c := ConfigC{Servers: []ServerC{{Name: "s0", Proto: "socks5", TL: []TLc{{Net: "tcp"}}}}, Router: RouterC{DS: []string{"hinted"}}}
+		cs := Case{Kind: "probe", Probe: "F24", Cfg: c}
+		r := load(loadDoc(c, x.dir), false)
+		x.rep.Case(sigOf(cs), true)
+		x.rep.FindingsProbed[keyF24] = false
+		if strings.HasPrefix(r.Line, "panic") {
+			x.rep.FindingsProbed[keyF24] = true
+			x.failure(common.OracleFailure{Engine: "config", Key: keyF24, Case: cs,
+				Detail: "Config.Manager panics at load instead of returning an error: " + r.Line + " (domain set file with capacity hint `1 1 9223372036854775807 4611686018427387904`)"})
+		} else if mo, err := runModel(x, []ConfigC{c}); err != nil {
+			return err
+		} else if mo != nil && r.Line != mo[0].plain {
+			x.rep.Diverge(common.Divergence{Engine: "config", Case: cs, Impl: r.Line, Model: mo[0].plain, Note: "set file with an absurd capacity hint"})
+		}
 	}
 	// F4: direct + tunnelUDPTargetOnly + DOMAIN tunnel address + a UDP listener: accepted, then the first reply datagram panics
 	{
@@ -434,11 +460,11 @@ func replay(x *ctx, cs Case) error {
 		case "F15":
 			key = keyF15
 		}
-		if cs.Probe != "F12" && cs.Probe != "F20" && cs.Probe != "F15-replay" {
+		if cs.Probe != "F12" && cs.Probe != "F20" && cs.Probe != "F24" && cs.Probe != "F15-replay" {
 			evalSmoke(x, cs, SmokePlan{Doc: smokeDoc(cs.Cfg), Mode: mode, NoUDP: noudp}, key)
 		}
 	}
-	if cs.Probe == "F15-replay" {
+	if cs.Probe == "F15-replay" || cs.Probe == "F24" {
 		return probes(x)
 	}
 	return nil
